@@ -452,6 +452,55 @@ func ownerClosed(v ssa.Value, depth int) (bool, string) {
 	return false, ""
 }
 
+// callerSupplied: the channel value is (a copy of) a parameter of the outermost enclosing function,
+// i.e. a signal the caller promises to give — not something the object itself closes when it goes away.
+func callerSupplied(v ssa.Value, depth int) bool {
+	if depth > 6 {
+		return false
+	}
+	v = engine.Unwrap(v)
+	switch x := v.(type) {
+	case *ssa.Parameter:
+		return x.Parent().Parent() == nil
+	case *ssa.FreeVar:
+		fn := x.Parent()
+		idx := -1
+		for i, fv := range fn.FreeVars {
+			if fv == x {
+				idx = i
+			}
+		}
+		if par := fn.Parent(); par != nil && idx >= 0 {
+			for _, b := range par.Blocks {
+				for _, in := range b.Instrs {
+					if mc, ok := in.(*ssa.MakeClosure); ok && mc.Fn == ssa.Value(fn) && idx < len(mc.Bindings) {
+						return callerSupplied(mc.Bindings[idx], depth+1)
+					}
+				}
+			}
+		}
+	case *ssa.UnOp:
+		if x.Op == token.MUL {
+			return callerSupplied(x.X, depth+1)
+		}
+	case *ssa.Alloc:
+		// a cell: caller-supplied if its stores are
+		if refs := x.Referrers(); refs != nil {
+			n := 0
+			for _, rr := range *refs {
+				if st, ok := rr.(*ssa.Store); ok && st.Addr == ssa.Value(x) {
+					n++
+					if !callerSupplied(st.Val, depth+1) {
+						return false
+					}
+				}
+			}
+			return n > 0
+		}
+	}
+	return false
+}
+
 func checkGoroutine(r *engine.Report, p *engine.Program, fn *ssa.Function) {
 	name := engine.FuncName(fn)
 	nOps := 0
@@ -482,6 +531,7 @@ func checkGoroutine(r *engine.Report, p *engine.Program, fn *ssa.Function) {
 				ok := false
 				why := ""
 				desc := []string{}
+				ownArm := false
 				for _, st := range x.States {
 					d := "<-"
 					if st.Dir == types.SendOnly {
@@ -491,11 +541,19 @@ func checkGoroutine(r *engine.Report, p *engine.Program, fn *ssa.Function) {
 					if st.Dir == types.RecvOnly {
 						if t, w := ownerClosed(st.Chan, 0); t {
 							ok, why = true, w
+							if !callerSupplied(st.Chan, 0) {
+								ownArm = true
+							}
 						}
 					}
 				}
 				construct := fmt.Sprintf("%s: select{%s}", name, strings.Join(desc, ","))
-				r.Check("R5-goroutine-arms", construct, x.Pos(), ok, "has a termination arm ("+why+")", "a blocking select in a goroutine has no arm on a context/done/timer channel: it can block forever after its object is closed")
+				badWhy := "a blocking select in a goroutine has no arm on a context/done/timer channel: it can block forever after its object is closed"
+				if ok && !ownArm {
+					ok = false
+					badWhy = "the only termination arms of this select are signal channels supplied by the caller: when the object (socket, node) goes away without the caller ever signalling, the goroutine stays forever"
+				}
+				r.Check("R5-goroutine-arms", construct, x.Pos(), ok, "has a termination arm of its own ("+why+")", badWhy)
 			case *ssa.UnOp:
 				if x.Op != token.ARROW {
 					continue
@@ -503,7 +561,12 @@ func checkGoroutine(r *engine.Report, p *engine.Program, fn *ssa.Function) {
 				nOps++
 				ok, why := ownerClosed(x.X, 0)
 				construct := fmt.Sprintf("%s: receive %s", name, chanKey(x.X))
-				r.Check("R5-goroutine-arms", construct, x.Pos(), ok, "blocks only on a channel that its owner closes ("+why+")", "a goroutine blocks in a bare receive on a channel that no owner is known to close")
+				badWhy := "a goroutine blocks in a bare receive on a channel that no owner is known to close"
+				if ok && callerSupplied(x.X, 0) {
+					ok = false
+					badWhy = "the goroutine's only way out is a signal channel supplied by the caller: when the object (socket, node) goes away without the caller ever signalling (e.g. a failed dial never closes its done channel), the goroutine stays forever"
+				}
+				r.Check("R5-goroutine-arms", construct, x.Pos(), ok, "blocks only on a channel that its owner closes ("+why+")", badWhy)
 			case *ssa.Next:
 				if _, isChan := x.Iter.Type().Underlying().(*types.Chan); isChan {
 					nOps++
